@@ -1,19 +1,70 @@
 // Harness for C08: interprets scripts against RandomTools' cumulative / quantile functions.
+//
+// Answer grammar: <outcome> { ; <tag> <arg>... <outcome> }
+//   outcome = 16 hex digits | nan | exc:bpp
+// The groups after the first are values of *public* RandomTools functions at the points the
+// wrapper under test is supposed to query them (computed here with the same expression as in
+// the header); the driver uses them as the kernels' values (lean/BppModel/DistGuards.lean).
+// Ops starting with `x.` serve the exploration (dense grids, inverse relations, monotonicity).
 #include "common.h"
 #include <Bpp/Numeric/Random/RandomTools.h>
 #include <Bpp/Exceptions.h>
 #include <cmath>
+#include <functional>
 using namespace bpp; using namespace verif;
 
 static std::string H(double d) { return std::isnan(d) ? "nan" : doubleToHex(d); }
-static double D(const std::string& s) { return hexToDouble(s); }
+static double D(const std::string& s) { return s == "nan" ? std::nan("") : hexToDouble(s); }
+static std::string O(std::function<double()> f) {
+  try { return H(f()); } catch (Exception&) { return "exc:bpp"; }
+}
+typedef RandomTools R;
 
 static std::string op(const Toks& t) {
   const std::string& o = t[0];
-  try {
-    if (o == "pnorm") return H(RandomTools::pNorm(D(t[1])));
-    if (o == "qnorm") return H(RandomTools::qNorm(D(t[1])));
-  } catch (Exception& e) { return "exc:bpp"; }
+  // ---- normal
+  if (o == "pnorm") { double z = D(t[1]); return O([&] { return R::pNorm(z); }); }
+  if (o == "qnorm") { double p = D(t[1]); return O([&] { return R::qNorm(p); }); }
+  if (o == "pnorm3") {
+    double x = D(t[1]), mu = D(t[2]), s = D(t[3]); double z = (x - mu) / s;
+    return O([&] { return R::pNorm(x, mu, s); }) + " ; pn " + H(z) + " " + O([&] { return R::pNorm(z); });
+  }
+  if (o == "qnorm3") {
+    double p = D(t[1]), mu = D(t[2]), s = D(t[3]);
+    return O([&] { return R::qNorm(p, mu, s); }) + " ; qn " + H(p) + " " + O([&] { return R::qNorm(p); });
+  }
+  // ---- gamma family
+  if (o == "ig") { double x = D(t[1]), a = D(t[2]), g = D(t[3]); return O([&] { return R::incompleteGamma(x, a, g); }); }
+  if (o == "pgamma") {
+    double x = D(t[1]), a = D(t[2]), b = D(t[3]);
+    double lg = R::lnGamma(a); double q = b * x;
+    return O([&] { return R::pGamma(x, a, b); }) + " ; lg " + H(a) + " " + H(lg)
+      + " ; ig " + H(q) + " " + H(a) + " " + H(lg) + " " + O([&] { return R::incompleteGamma(q, a, lg); });
+  }
+  if (o == "pchisq") {
+    double x = D(t[1]), v = D(t[2]);
+    double a = v / 2, b = 0.5; double lg = R::lnGamma(a); double q = b * x;
+    return O([&] { return R::pChisq(x, v); }) + " ; lg " + H(a) + " " + H(lg)
+      + " ; ig " + H(q) + " " + H(a) + " " + H(lg) + " " + O([&] { return R::incompleteGamma(q, a, lg); })
+      + " ; pg " + H(x) + " " + H(a) + " " + H(b) + " " + O([&] { return R::pGamma(x, a, b); });
+  }
+  if (o == "qchisq") { double p = D(t[1]), v = D(t[2]); return O([&] { return R::qChisq(p, v); }); }
+  if (o == "qgamma") {
+    double p = D(t[1]), a = D(t[2]), b = D(t[3]); double v = 2.0 * a;
+    return O([&] { return R::qGamma(p, a, b); }) + " ; qc " + H(p) + " " + H(v) + " " + O([&] { return R::qChisq(p, v); });
+  }
+  // ---- beta family
+  if (o == "ibeta") { double x = D(t[1]), a = D(t[2]), b = D(t[3]); return O([&] { return R::incompleteBeta(x, a, b); }); }
+  if (o == "pbeta") {
+    double x = D(t[1]), a = D(t[2]), b = D(t[3]);
+    return O([&] { return R::pBeta(x, a, b); }) + " ; ib " + H(x) + " " + H(a) + " " + H(b) + " " + O([&] { return R::incompleteBeta(x, a, b); });
+  }
+  if (o == "qbeta") { double p = D(t[1]), a = D(t[2]), b = D(t[3]); return O([&] { return R::qBeta(p, a, b); }); }
+  if (o == "lnbeta") {
+    double a = D(t[1]), b = D(t[2]); double s = a + b;
+    return O([&] { return R::lnBeta(a, b); }) + " ; lg " + H(a) + " " + H(R::lnGamma(a)) + " ; lg " + H(b) + " " + H(R::lnGamma(b))
+      + " ; lg " + H(s) + " " + H(R::lnGamma(s));
+  }
   return "bad-op";
 }
 
